@@ -134,12 +134,18 @@ def r3(ctx):
         if match(sq(2, 4), v[2][1]) is None:
             bad.append('destination is parsed from %s' % sh(v[2][1], 160))
         promo = v[2][2]
-        is5 = sorted(set(val for c, val, allv in conds if match(LEN5, c) is not None), key=str)
+        # truth of `len == 5` on this path, however the test is spelled (== 5, != 5 with swapped arms)
+        is5 = set()
+        for c, val, allv in conds:
+            for op, neg in (('Eq', False), ('Ne', True)):
+                if match((LEN5[0], op, LEN5[2], LEN5[3]), c) is not None:
+                    taken_true = (val != 0)
+                    is5.add(taken_true != neg)
         if promo[0] == 'agg' and promo[2] == 'Some':
-            if is5 != ['otherwise']:
+            if is5 != {True}:
                 bad.append('a promotion is produced although len != 5 is possible')
         elif promo[0] == 'agg' and promo[2] == 'None':
-            if is5 != [0]:
+            if is5 != {False}:
                 bad.append('no promotion although len == 5 is possible')
         else:
             bad.append('promotion value not recognised: ' + sh(promo, 80))
@@ -153,16 +159,25 @@ def r3(ctx):
     if s is None:
         return
     w = where(s.body)
-    r = norm(s.ret)
+    r = ninl(ctx, s.ret)          # accessors (get_source / get_dest / get_promotion) inlined to the fields
     ok = False
-    if r[0] == 'ite' and r[1] == ('discr', ('field', SELF, 'promotion')):
-        cases = dict(r[2])
-        pn = fmt_parts(cases.get(0, ()))
-        ps = fmt_parts(cases.get(1, ()))
-        src, dst = ('field', SELF, 'source'), ('field', SELF, 'dest')
-        pr = ('field', ('variant', ('field', SELF, 'promotion'), 'Some'), '0')
-        if pn == [('arg', src), ('arg', dst)] and ps == [('arg', src), ('arg', dst), ('arg', pr)]:
-            ok = True
+    src, dst = ('field', SELF, 'source'), ('field', SELF, 'dest')
+    pr = ('field', ('variant', ('field', SELF, 'promotion'), 'Some'), '0')
+    foreign = []
+    parts = {}
+    for tag in (0, 1):
+        def decide(c_, vals, tag=tag):
+            if norm(c_) == ('discr', ('field', SELF, 'promotion')):
+                return tag if tag in vals else 'otherwise'
+            foreign.append(c_)
+            return None
+        leaves = [l for l in eval_tree(r, decide) if l != ('never',)]
+        parts[tag] = [fmt_parts(l) for l in leaves]
+    if not foreign and parts[0] == [[('arg', src), ('arg', dst)]] and parts[1] == [[('arg', src), ('arg', dst), ('arg', pr)]]:
+        ok = True
+    if foreign:
+        ctx.inconclusive(R, 'ChessMove Display depends on something other than the presence of a promotion: ' + sh(foreign[0], 120))
+        return
     if ok:
         ctx.ok(R, 'writer: source, destination, then the promotion piece iff Some (no separators)', w)
     else:
